@@ -198,6 +198,9 @@ func cmdRec(o *Out, line string, f []string) {
 	coll.start = start
 	var obs []string
 	var incSum [4]int64 // ops, n(iter), size, errors since last reset/EndTest (performance recorders)
+	var incCalls [4]int64
+	var gState, gWorkers, gFailed, curID int64 // gauges: last value set, for ever; id: since the last reset/EndTest
+	isHist := strings.HasPrefix(kind, "hist")
 	for _, op := range sec[1] {
 		before := len(coll.docs)
 		res := ""
@@ -206,20 +209,32 @@ func cmdRec(o *Out, line string, f []string) {
 		case strings.HasPrefix(op, "io"):
 			r.IncOperations(arg(2))
 			incSum[0] += arg(2)
+			incCalls[0]++
 		case strings.HasPrefix(op, "ii"):
 			r.IncIterations(arg(2))
 		case strings.HasPrefix(op, "is"):
 			r.IncSize(arg(2))
+			incSum[2] += arg(2)
+			incCalls[2]++
 		case strings.HasPrefix(op, "ie"):
 			r.IncError(arg(2))
+			incSum[3] += arg(2)
+			incCalls[3]++
 		case strings.HasPrefix(op, "sw"):
 			r.SetWorkers(arg(2))
+			gWorkers = arg(2)
 		case strings.HasPrefix(op, "ss"):
 			r.SetState(arg(2))
+			gState = arg(2)
 		case strings.HasPrefix(op, "sf"):
 			r.SetFailed(arg(2) != 0)
+			gFailed = 0
+			if arg(2) != 0 {
+				gFailed = 1
+			}
 		case strings.HasPrefix(op, "id"):
 			r.SetID(arg(2))
+			curID = arg(2)
 		case op == "b":
 			r.BeginIteration()
 		case strings.HasPrefix(op, "e"):
@@ -238,15 +253,51 @@ func cmdRec(o *Out, line string, f []string) {
 			} else {
 				res = fmt.Sprintf("E%d", strings.Count(err.Error(), "\n")+1)
 			}
-			incSum = [4]int64{}
 		case op == "R":
 			r.Reset()
-			incSum = [4]int64{}
 		default:
 			panic("op " + op)
 		}
 		var ps []string
 		ps = append(ps, coll.strs[before:]...)
+		// oracle (C15), independent of the model: gauges are the last value set (for ever), the id the last
+		// one set and the counters the sums of the increments since the last EndTest / Reset
+		for _, str := range coll.strs[before:] {
+			got := map[string]string{}
+			for _, kv := range strings.Split(str, ",") {
+				if i := strings.IndexByte(kv, '='); i > 0 {
+					got[kv[:i]] = kv[i+1:]
+				}
+			}
+			want := map[string]string{"state": fmt.Sprint(gState), "workers": fmt.Sprint(gWorkers), "failed": fmt.Sprint(gFailed), "id": fmt.Sprint(curID)}
+			if !isHist {
+				want["ops"], want["size"], want["errors"] = fmt.Sprint(incSum[0]), fmt.Sprint(incSum[2]), fmt.Sprint(incSum[3])
+			}
+			for k, w := range want {
+				g, present := got[k]
+				if isHist && (k == "ops" || k == "size" || k == "errors") {
+					continue
+				}
+				if present && g != w {
+					o.violation(line, "a persisted sample does not carry the last gauge / id set or the sum of the increments",
+						map[string]string{"field": k, "persisted": g, "expected": w, "after_call": op})
+				}
+			}
+			if isHist {
+				// every increment is one observation
+				for i, k := range map[int]string{0: "ops", 2: "size", 3: "errors"} {
+					if g, present := got[k]; present {
+						if cnt := strings.SplitN(g, "/", 2)[0]; cnt != fmt.Sprint(incCalls[i]) {
+							o.violation(line, "a histogram sample does not hold one observation per increment",
+								map[string]string{"field": k, "persisted": g, "expected_observations": fmt.Sprint(incCalls[i]), "after_call": op})
+						}
+					}
+				}
+			}
+		}
+		if op == "T" || op == "R" {
+			incSum, incCalls, curID = [4]int64{}, [4]int64{}, 0
+		}
 		if len(ps) > 0 {
 			res += "[" + strings.Join(ps, ";") + "]"
 		}
@@ -281,7 +332,8 @@ func cmdRec(o *Out, line string, f []string) {
 
 func streamRecorder(o *Out, rng *rand.Rand, thorough bool, _ []string) {
 	kinds := []string{"raw", "single", "grouped", "interval", "hist", "histSingle", "histGrouped", "histInterval", "syncRaw", "shimRaw"}
-	alphabet := []string{"io3", "ii2", "is5", "ie1", "sw4", "ss2", "sf1", "b", "e2", "t1600000000000", "d3", "D7", "id9", "T", "R", "io20000"}
+	alphabet := []string{"io3", "ii2", "is5", "ie1", "sw4", "ss2", "sf1", "b", "e2", "t1600000000000", "d3", "D7", "id9", "T", "R", "io20000",
+		"io0", "is0", "sw0", "ss0", "id0", "sf0", "d0"}
 	// exhaustive short call sequences
 	maxLen := 2
 	if thorough {
@@ -297,6 +349,10 @@ func streamRecorder(o *Out, rng *rand.Rand, thorough bool, _ []string) {
 					}
 					// always finish with an EndTest so that unpersisted state becomes visible
 					run(o, fmt.Sprintf("rec %s %s - | %s T", k, ivl, strings.Join(prefix, " ")))
+					if len(prefix) == 2 {
+						// the same calls inside an iteration that is persisted, after non-zero gauges and counters
+						run(o, fmt.Sprintf("rec %s %s - | sw4 ss2 id9 sf1 b io3 %s e1 T", k, ivl, strings.Join(prefix, " ")))
+					}
 				}
 			}
 		}
